@@ -56,4 +56,55 @@ def Geom.subcellsList : List Geom → List Nat
   | g :: gs => g.subcells ++ Geom.subcellsList gs
 end
 
+/-! ## `inline_cells`: which cells are inlined -/
+
+/-- `find_occurrences`, reduced to what `inline_cells` uses: for every cell referenced (directly or not)
+from a level-0 cell, the number of references to it in the cells reachable from level 0.  `cells` =
+(id, universe, geometry) in dictionary order; `none` = a referenced cell is missing (`KeyError`) -/
+def occurrenceCounts (cells : List (Nat × Nat × Geom)) : Option (List (Nat × Nat)) :=
+  let geom? (k : Nat) : Option Geom := (cells.find? (·.1 == k)).map (·.2.2)
+  let bump (occ : List (Nat × Nat)) (c : Nat) : List (Nat × Nat) :=
+    if occ.any (·.1 == c) then occ.map fun p => if p.1 == c then (c, p.2 + 1) else p else occ ++ [(c, 1)]
+  -- depth-first over the key stack, `enqueued` = keys ever pushed
+  let rec go : Nat → List Nat → List Nat → List (Nat × Nat) → Option (List (Nat × Nat))
+    | 0, _, _, _ => none
+    | _ + 1, [], _, occ => some occ
+    | fuel + 1, key :: stack, enq, occ =>
+        match geom? key with
+        | none => none
+        | some g =>
+          let subs := g.subcells
+          let occ' := subs.foldl bump occ
+          let (stack', enq') := subs.foldl (fun (acc : List Nat × List Nat) c =>
+            if acc.2.contains c then acc else (c :: acc.1, c :: acc.2)) (stack, enq)
+          go fuel stack' enq' occ'
+  let roots := (cells.filter (·.2.1 == 0)).map (·.1)
+  go (cells.length + roots.length + 1) roots.reverse roots []
+
+/-- `compute_inlining_scores` + the selection `score < max_inline_score` (IEEE doubles, as in the code) -/
+def selectInline (cells : List (Nat × Nat × Geom)) (maxScore : Float) : Option (List Nat) := do
+  let occ ← occurrenceCounts cells
+  occ.filterMapM fun (c, n) =>
+    match (cells.find? (·.1 == c)).map (·.2.2) with
+    | none => none
+    | some g =>
+      let score : Float := if n ≤ 1 then 0 else g.size.toFloat / n.toFloat
+      some (if score < maxScore then some c else none)
+
+/-- `inline_cells`: every cell's geometry is rewritten in dictionary order, in place (later cells read
+the already rewritten geometry of earlier ones) -/
+def inlineAll (cells : List (Nat × Nat × Geom)) (maxScore : Float) : Option (List (Nat × Geom)) := do
+  let sel ← selectInline cells maxScore
+  if sel.isEmpty then some (cells.map fun c => (c.1, c.2.2)) else
+  let rec go : List Nat → List (Nat × Geom) → Option (List (Nat × Geom))
+    | [], cur => some cur
+    | k :: ks, cur =>
+        match geomOf cur k with
+        | none => none
+        | some g =>
+          match inlineWorker cur sel 10000 g with
+          | none => none
+          | some g' => go ks (cur.map fun p => if p.1 == k then (k, g') else p)
+  go (cells.map (·.1)) (cells.map fun c => (c.1, c.2.2))
+
 end T4V
